@@ -454,6 +454,11 @@ def library():
         "number-exceeds-empty": _spec(three, [_par("nu0", "number", 1e9), _par("nu1", "number", 50.0), _par("ra2", "rate", 0.2)], [["c0", "c1", "nu0"], ["c2", "c0", "nu1"], ["c1", "c2", "ra2"]]),
         "negative-rate": _spec(three, [_par("ra0", "rate", -2.0), _par("ra1", "rate", 0.3), _par("nu2", "number", -5.0)], [["c0", "c1", "ra0"], ["c1", "c0", "ra1"], ["c0", "c2", "nu2"]]),
         "negative-function": _spec(three, [_par("ra0", "rate", None, function="0.5*(c2-c0)/(alive+1)"), _par("ra1", "rate", 0.3), _par("ra2", "rate", 0.4)], [["c0", "c1", "ra0"], ["c1", "c0", "ra1"], ["c1", "c2", "ra2"]]),
+        # the databook total is 5e-7 short of the parts entered: the solve gives c2 = -5e-7, inside the 1e-6 tolerance, so the run is accepted -- and must start from 0, not from -5e-7
+        "init-negative-within-tolerance": dict(_spec(three, [_par("ra0", "rate", 0.2), _par("ra1", "rate", 0.3), _par("ra2", "rate", 0.4)], [["c0", "c1", "ra0"], ["c1", "c0", "ra1"], ["c2", "c0", "ra2"]]),
+                                               comps=[{"name": "c0", "kind": "normal", "databook": True, "init": {"pa": 600.0}}, {"name": "c1", "kind": "normal", "databook": True, "init": {"pa": 400.0000005}},
+                                                      {"name": "c2", "kind": "normal", "databook": False, "init": None}],
+                                               characs=[{"name": "alive", "components": ["c0", "c1", "c2"], "denominator": None, "databook": True, "init": {"pa": 1000.0}}]),
         "daily-step": _spec(three, [_par("ra0", "rate", 400.0), _par("du1", "duration", 0.001), _par("nu2", "number", 1e5)], [["c0", "c1", "ra0"], ["c0", "c2", "du1"], ["c1", "c0", "nu2"]], dt=1 / 365, nsteps=6),
     }
 
